@@ -198,8 +198,9 @@ class AbstractBlob:
         blob_bytes, blob_hash = encrypt_blob_bytes(key, iv, unencrypted)
         length = len(blob_bytes)
         blob = cls(loop, blob_hash, length, blob_completed_callback, blob_dir, added_on, is_mine)
-        writer = blob.get_blob_writer()
-        writer.write(blob_bytes)
+        if not blob.get_is_verified():  # identical ciphertext may already be stored under this hash
+            writer = blob.get_blob_writer()
+            writer.write(blob_bytes)
         await blob.verified.wait()
         return BlobInfo(blob_num, length, binascii.hexlify(iv).decode(), added_on, blob_hash, is_mine)
 
